@@ -301,10 +301,24 @@ def replay(path):
     return check(info["prop"], info["tier"], only=info["index"], only_hashseed=hs if str(hs).isdigit() else None)
 
 
+def sweep_stale_shm():
+    """temporary directories on /dev/shm left behind by shards that were killed (see vf/cli.py)"""
+    import glob
+    import shutil
+    for d in glob.glob("/dev/shm/vf-tmp-*"):
+        try:
+            pid = int(os.path.basename(d).split("-")[2])
+        except (IndexError, ValueError):
+            continue
+        if not os.path.exists(f"/proc/{pid}"):
+            shutil.rmtree(d, ignore_errors=True)
+
+
 def main(argv):
     if not argv:
         print(__doc__)
         return 2
+    sweep_stale_shm()
     if argv[0] == "setup":
         ok = ensure_deps()
         if not ok:
